@@ -87,6 +87,16 @@ def _cases(draw, tier):
                         in decorated]
                 aid = draw(st.sampled_from(both if both and draw(st.booleans()) else sorted(ov)))
                 alts.append((aid, ov[aid]))
+            dp = oc['operand_sets'].get('disallowed_pairs')
+            if dp and draw(st.booleans()):
+                # the disallowed combination itself, or - where the sets allow it - the same two alternatives the other
+                # way round (which is a different combination and not disallowed)
+                pair = list(dp[0])
+                if draw(st.booleans()):
+                    pair.reverse()
+                sl = oc['operand_sets']['list']
+                if len(pair) == len(sl) and all(a in cfg['operand_sets'][sn]['operand_values'] for a, sn in zip(pair, sl)):
+                    alts = [(a, cfg['operand_sets'][sn]['operand_values'][a]) for a, sn in zip(pair, sl)]
     glo, ghi = isa.zones['GLOBAL']
     address = draw(st.integers(glo + 64, ghi - 300))
     consts = {'kval': draw(st.integers(0, 3000))}
